@@ -76,6 +76,32 @@ def step (_ : Unit) (ws : List String) : Unit × String :=
         | .refused => "refused"
       ((), s!"verdict={vs} held={held v} est={estimateBuffers wmax}")
     | _, _, _, _, _ => ((), "bad-op")
+  | ["dhdr", frame, wmax, out, whole] =>
+    -- dhdr <hex frame (header first)> <window limit> <first output room> <whole frame in the first call 0|1> : the model reads the header itself
+    -- (window descriptor / single-segment content size of any width) and decides; a descriptor above ZSTD_WINDOWLOG_MAX is refused by the parser
+    let b := ByteArray.ofHex frame
+    match Frame.getHeader b 0 b.size false, wmax.toNat?, out.toNat? with
+    | .ok hd, some wmax, some out =>
+      let v := loadHeader hd.windowSize hd.fcs hd.blockSizeMax wmax out (whole == "1")
+      let vs := match v with
+        | .singlePass => "single"
+        | .buffered _ _ => "buffered"
+        | .refused => "refused"
+      let fs := match hd.fcs with
+        | some n => toString n
+        | none => "-"
+      ((), s!"verdict={vs} held={held v} est={estimateBuffers wmax} window={hd.windowSize} fcs={fs} bsm={hd.blockSizeMax}")
+    | .err .windowTooLarge, some wmax, _ => ((), s!"verdict=refused held=0 est={estimateBuffers wmax} window=descriptor-above-max fcs=- bsm=0")
+    | .need n, _, _ => ((), s!"verdict=need-{n}")
+    | _, _, _ => ((), "verdict=header-error")
+  | ["cov", kind, cp, rp] =>
+    -- cov <cctx|cstream> <w,c,h,s,mm,tl,strat> <applied parameters as in `reset`> : hypothesis of usingCParams_covers on this run + both sides of its conclusion
+    match nats cp, parseRP (nats rp) with
+    | [w, c, h, sl, mm, tl, st], some p =>
+      let cpar : CPar := ⟨w, c, h, sl, mm, tl, st⟩
+      let stream := kind == "cstream"
+      ((), s!"le={if leB p (rpOfCParams cpar p.useRow stream) then 1 else 0} need={estimate p} pub={estimateUsingCParams cpar stream}")
+    | _, _ => ((), "bad-op")
   | _ => ((), "bad-op")
 
 def main : IO Unit := do
